@@ -1816,9 +1816,14 @@ def normalise_temporaries(tree: ast.Module, modname: str) -> int:
     r = ref()
     locs = r.get("functions", {})
     n = 0
-    for key, fn in alpha.outermost_functions(tree, modname):
+    todo = []
+    for key, outer in alpha.outermost_functions(tree, modname):
         if key not in r.get("if_tests", {}):
             continue
+        # the outermost function and every function nested in it (the table lists the locals of all of them under the outer key)
+        todo.append((key, outer))
+        todo += [(key, x) for x in ast.walk(outer) if isinstance(x, _FUNCS) and x is not outer]
+    for key, fn in todo:
         params = {a.arg for a in ast.walk(fn) if isinstance(a, ast.arg)}
         n += branch_assignments_to_conditionals(fn, {x[0] for x in locs.get(key, []) if x[1] == "Assign" and x[2] == "IfExp"})
         n += for_else_to_any_tests(fn, {x[0] for x in locs.get(key, [])} | params)
